@@ -1,1 +1,223 @@
-fn main() { println!("C20: not built yet"); std::process::exit(2); }
+//! C20: parking_lot / dashmap / deterministic collections / rand / lazy_static replacements.
+mod coll;
+mod dash;
+mod plot;
+
+use serde_json::json;
+use std::cell::RefCell;
+use std::process::Command;
+use std::rc::Rc;
+use vcore::checks::c01::{first_diff, make_sched, signature};
+use vcore::oracle::{self, Acc};
+use vcore::rec::{self, body_event, Ev, Term};
+use vcore::util::{self, Report, Rng};
+
+slazy::lazy_static! {
+    static ref LZ_WRAPPED: std::sync::atomic::AtomicUsize = {
+        body_event(6000, 0, 0);
+        std::sync::atomic::AtomicUsize::new(0)
+    };
+}
+
+/// a body whose only nondeterminism goes through the rand replacement, plus a wrapped lazy static
+fn rand_body() {
+    use srand::distributions::{Distribution, Uniform};
+    use srand::seq::SliceRandom;
+    use srand::{Rng as _, RngCore, SeedableRng};
+    let before = LZ_WRAPPED.fetch_add(1, std::sync::atomic::Ordering::SeqCst);
+    body_event(6001, before as i64, 0);
+    let a: u32 = srand::thread_rng().gen_range(0..1000);
+    body_event(6002, a as i64, 0);
+    let h = shuttle::thread::spawn(move || {
+        let mut r = srand::rngs::StdRng::from_seed([7u8; 32]);
+        let b = r.next_u64() % 1000;
+        body_event(6003, b as i64, 0);
+        let mut v = vec![1, 2, 3, 4, 5];
+        v.shuffle(&mut r);
+        body_event(6004, v[0] as i64 * 10 + v[4] as i64, 0);
+        LZ_WRAPPED.fetch_add(1, std::sync::atomic::Ordering::SeqCst);
+    });
+    let u = Uniform::new(0u32, 50);
+    let c = u.sample(&mut srand::thread_rng());
+    body_event(6005, c as i64, 0);
+    let d: bool = srand::random();
+    body_event(6006, d as i64, 0);
+    h.join().unwrap();
+    body_event(6007, LZ_WRAPPED.load(std::sync::atomic::Ordering::SeqCst) as i64, 0);
+}
+
+fn rand_lazy_check(k: usize, seed: u64, iters: usize, acc: &mut Acc) {
+    let collected: Rc<RefCell<Vec<rec::Finished>>> = Rc::new(RefCell::new(vec![]));
+    let c2 = collected.clone();
+    let rr = rec::run_streamed(make_sched(k, seed, iters), rec::base_config(), rand_body, move |f| c2.borrow_mut().push(f));
+    let execs = std::mem::take(&mut *collected.borrow_mut());
+    let wit = |extra: serde_json::Value| json!({"scheduler_kind": k, "seed": seed, "detail": extra});
+    if let Term::Panic(msg) = &rr.term {
+        if msg.contains("did not exercise any concurrency") {
+            return;
+        }
+    }
+    if rr.term != Term::Pass {
+        acc.violation("rand-body-failed", format!("{:?}", rr.term), wit(json!(null)));
+        return;
+    }
+    let mut values = std::collections::BTreeSet::new();
+    for (i, f) in execs.iter().enumerate() {
+        acc.evaluations += 1;
+        if rec::nontrivial(&f.log) {
+            acc.distinct.insert(rec::hash_choices(&f.log));
+        }
+        // per-execution re-initialisation of the wrapped lazy static
+        let inits = f.log.events.iter().filter(|e| matches!(e, Ev::Body { tag: 6000, .. })).count();
+        let before = f.log.events.iter().find_map(|e| if let Ev::Body { tag: 6001, a, .. } = e { Some(*a) } else { None });
+        let fin = f.log.events.iter().find_map(|e| if let Ev::Body { tag: 6007, a, .. } = e { Some(*a) } else { None });
+        if inits != 1 || before != Some(0) || fin != Some(2) {
+            acc.violation(
+                "lazy-static-not-per-execution",
+                format!("iteration {i}: the wrapped lazy static was initialised {inits} times, held {:?} at first use and {:?} at the end (expected 1, 0, 2)", before, fin),
+                wit(json!({"iteration": i})),
+            );
+        }
+        for e in &f.log.events {
+            if let Ev::Body { tag: 6002, a, .. } = e {
+                values.insert(*a);
+            }
+        }
+        // replay from the recorded schedule: identical draws
+        if i < 4 || i % 7 == 0 {
+            let text = shuttle_schedule_text(&f.runtime_schedule);
+            let rep: Rc<RefCell<Vec<rec::ExecLog>>> = Rc::new(RefCell::new(vec![]));
+            let r2 = rep.clone();
+            let rr = rec::run_streamed(shuttle::scheduler::ReplayScheduler::new_from_encoded(&text), rec::base_config(), rand_body, move |f| r2.borrow_mut().push(f.log));
+            acc.add("rand_replays", 1);
+            let reps = rep.borrow();
+            if rr.term != Term::Pass || reps.len() != 1 {
+                acc.violation("rand-replay-failed", format!("replay ended {:?}", rr.term), wit(json!({"schedule": text})));
+            } else if let Some((j, d)) = first_diff(&signature(&f.log), &signature(&reps[0])) {
+                acc.violation("rand-replay-differs", format!("values drawn through the rand replacement differ on replay: event {j}: {d}"), wit(json!({"schedule": text})));
+            }
+        }
+    }
+    if execs.len() >= 20 && values.len() < 3 && k % 8 != 6 {
+        acc.violation("rand-not-random", format!("{} executions drew only {} distinct first values", execs.len(), values.len()), wit(json!(null)));
+    }
+}
+
+fn shuttle_schedule_text(s: &shuttle::scheduler::Schedule) -> String {
+    // shuttle re-exports the engine's codec only through the engine crate; vcore links it
+    vcore::rec::serialize(s)
+}
+
+fn c20(r: &mut Report) {
+    let mut rng = Rng::new(r.seed ^ 0xC20);
+    let n_lock = if r.quick() { 60 } else { 1500 };
+    let n_dash = if r.quick() { 60 } else { 1500 };
+    let n_hist = if r.quick() { 300 } else { 20_000 };
+    let enum_cap = if r.quick() { 6_000 } else { 150_000 };
+    let sample_iters = if r.quick() { 400 } else { 10_000 };
+    #[derive(Clone)]
+    enum Item {
+        Lock(String, Vec<Vec<plot::LOp>>, usize, u64),
+        Dash(String, Vec<Vec<dash::DOp>>, usize, u64),
+        Hist(u64, usize),
+        Rand(usize, u64),
+        CrossProcess(u64),
+    }
+    let mut items: Vec<Item> = vec![];
+    for (name, p) in plot::corpus() {
+        for mode in [0usize, 8, 2] {
+            items.push(Item::Lock(format!("corpus:{name}"), p.clone(), mode, rng.next()));
+        }
+    }
+    for i in 0..n_lock {
+        let p = plot::gen_prog(&mut rng, 1 + i % 2);
+        let mode = [0usize, 0, 8, 2][i % 4];
+        items.push(Item::Lock(format!("gen/{i}"), p, mode, rng.next()));
+    }
+    for i in 0..n_dash {
+        let p = dash::gen_prog(&mut rng, 1 + i % 3);
+        let mode = [0usize, 0, 8, 2][i % 4];
+        items.push(Item::Dash(format!("gen/{i}"), p, mode, rng.next()));
+    }
+    for i in 0..n_hist {
+        items.push(Item::Hist(rng.next(), 5 + i % 120));
+    }
+    for k in [0usize, 2, 5, 6, 7] {
+        items.push(Item::Rand(k, rng.next()));
+    }
+    for _ in 0..(if r.quick() { 6 } else { 60 }) {
+        items.push(Item::CrossProcess(rng.next()));
+    }
+    let accs = oracle::parallel(items.len(), oracle::workers(), |i, acc| match &items[i] {
+        Item::Lock(label, p, mode, seed) => plot::check_prog(p, *mode, *seed, if *mode == 0 { enum_cap } else { sample_iters }, acc, label),
+        Item::Dash(label, p, mode, seed) => dash::check_prog(p, *mode, *seed, if *mode == 0 { enum_cap } else { sample_iters }, acc, label),
+        Item::Hist(seed, len) => coll::check_history(*seed, *len, acc),
+        Item::Rand(k, seed) => rand_lazy_check(*k, *seed, if *k % 8 == 7 { 2 } else { 40 }, acc),
+        Item::CrossProcess(seed) => {
+            // the same history in three fresh processes (different ASLR, hasher keys) must give identical orders
+            let exe = std::env::current_exe().expect("exe");
+            let mut outs = vec![];
+            for _ in 0..3 {
+                let o = Command::new(&exe).args(["c20order", &seed.to_string()]).output();
+                outs.push(o.map(|o| String::from_utf8_lossy(&o.stdout).to_string()).unwrap_or_default());
+            }
+            acc.evaluations += 3;
+            acc.add("cross_process_histories", 1);
+            let parse = |s: &str| -> Vec<(String, String)> { s.lines().filter_map(|l| l.strip_prefix("ORDER ")).filter_map(|l| l.split_once('=')).map(|(a, b)| (a.to_string(), b.to_string())).collect() };
+            let a = parse(&outs[0]);
+            if a.is_empty() {
+                acc.violation("order-child-failed", "the child process printing iteration orders produced nothing".into(), json!({"seed": seed}));
+            }
+            for other in &outs[1..] {
+                let b = parse(other);
+                for ((n1, h1), (_, h2)) in a.iter().zip(b.iter()) {
+                    if h1 != h2 {
+                        acc.violation(
+                            &format!("iteration-order-differs-across-processes:{n1}"),
+                            format!("{n1}: the same operation history iterates in a different order in another process"),
+                            json!({"history_seed": seed}),
+                        );
+                    }
+                }
+            }
+        }
+    });
+    for a in accs {
+        a.merge_into(r);
+    }
+    r.rule = "parking_lot: generated programs over read/write/upgradable_read with upgrade, try_upgrade, all three downgrades, try-variants, fair unlocks and the Mutex (each task holds one guard at a time), enumerated exhaustively or sampled: shadow access matrix asserted at every acquisition, protected value unchanged across an upgrade, downgrading tasks offered at every decision between call and return, no deadlock/panic; DashMap/DashSet: generated multi-task programs over insert/get/remove/entry/alter/iter/iter_mut/retain/clear/try_get with guards held across yields, the operations in return order applied to a BTreeMap/BTreeSet must give the same results; deterministic collections: random histories through five constructors compared with std on every result and content, iteration orders (iter, keys, clone, from_iter, set | & ^ -, serde round trip) equal across instances and across three fresh processes; rand/lazy_static replacements: values drawn through thread_rng/StdRng/seq/distributions/random and a wrapped lazy_static, identical on replay from the recorded schedule and re-initialised per execution. evaluations = executions + histories; distinct_nontrivial = distinct choice sequences + distinct histories".into();
+    r.assumptions = vec!["instances created with with_capacity are not compared for iteration order with instances created otherwise (different table size)".into()];
+}
+
+fn main() {
+    let args: Vec<String> = std::env::args().collect();
+    let id = args.get(1).cloned().unwrap_or_default();
+    if id == "c20order" {
+        let seed: u64 = args.get(2).and_then(|s| s.parse().ok()).unwrap_or(1);
+        let mut rng = Rng::new(seed);
+        let h = coll::gen_history(&mut rng, 60);
+        let h2 = coll::gen_history(&mut rng, 30);
+        for (n, hsh) in coll::order_fingerprint(&h, &h2) {
+            println!("ORDER {n}={hsh:x}");
+        }
+        return;
+    }
+    let mut tier = std::env::var("VERIF_TIER").unwrap_or_else(|_| "quick".to_string());
+    let mut i = 2;
+    while i < args.len() {
+        if args[i] == "--tier" && i + 1 < args.len() {
+            tier = args[i + 1].clone();
+            i += 1;
+        }
+        i += 1;
+    }
+    if id != "C20" {
+        println!("usage: vwrap C20 [--tier quick|thorough]");
+        std::process::exit(2);
+    }
+    util::quiet_stderr();
+    util::silence_panics();
+    let mut r = Report::new("C20", &tier, util::seed_from_env());
+    c20(&mut r);
+    std::process::exit(r.finish());
+}
